@@ -8,6 +8,7 @@ import FP.Proofs.Reach
 import FP.Proofs.KFDCRangeWitness
 import FP.Proofs.KFDCRangeInt
 import FP.Proofs.KFDCRangeRat
+import FP.Proofs.KFDCRangeCons
 import FP.Proofs.FlowDecompExists
 /-!
 # C04 — MinFlowDecompCycles finds a decomposition into the fewest walks
@@ -36,31 +37,39 @@ Objects (all mirrored from the code and tied to it by the harness):
 * T5 `mfdc_search_minimal`, `mfdc_search_finds`, `mfdc_min_walks`, `mfdc_minimum_int` — the search
                           returns the least feasible k; no decomposition with weights ≥ 1 has fewer walks.
 
-* T6 the search range `for k in range(lower bound, |E(G)| + 1)`:
-     `search_range_counterexample`, `search_range_not_adequate`, `search_range_counterexample_unsolved` —
-                          the range is **not** adequate on every input: with subset constraints the
-                          minimum number of walks can exceed `|E|` (two sources → hub → three sinks, the
-                          six constraints `{(s_a,m),(m,t_b)}`: satisfiable for `k = 6`, for no
-                          `k ≤ 5 = |E|`; the search ends unsolved — the real `solve()` returns `False`);
-     `search_range_adequate` — adequate for plain integer instances (`weight_type = int`, edge mode,
-                          nothing ignored, every edge with the flow attribute, no subset constraints):
-                          some k-model satisfiable ⇒ one with `≤ |E|` layers is (`walks_at_most_edges`, `few_walks_suffice`:
-                          any family of walks with positive integer weights can be replaced by at most
-                          `|E|` walks with the same weighted traversal counts);
-     `search_range_adequate_float` — adequate for float weights without subset constraints when every
-                          edge has the flow attribute and some non-ignored flow value is `≥ 1`
-                          (`caratheodory`; ignored edges and additional starts/ends allowed);
-     `search_range_adequate_of_bound`, `mfdc_search_complete_plain`, `mfdc_search_complete_float` — what
-                          the range guarantees: if a k-model with `j < hi` layers is satisfiable, the
-                          lower bound is valid and the solver is conclusive and in time on `lo … j`, the
-                          search returns the least satisfiable `k`; on the two classes above this holds
-                          whenever a decomposition exists at all.
+* T6 the search range — `range(lower bound, |E(G)| + 1)` until fix 26b11a1, since then
+     `range(lower bound, |E(G)| + len(subset_constraints) + 1)`:
+     `search_range_counterexample`, `search_range_not_adequate` — the OLD range was not adequate: with
+                          subset constraints the minimum number of walks can exceed `|E|` (two sources →
+                          hub → three sinks, the six constraints `{(s_a,m),(m,t_b)}`: satisfiable for
+                          `k = 6`, for no `k ≤ 5 = |E|`; the old `solve()` returned `False`) — the reason
+                          for fix 26b11a1, kept as regression theorems;
+     `search_range_witness_solved` — over the repaired range the search returns `6` on that witness;
+     `search_range_adequate_constraints`, `search_range_adequate_constraints_float` — the repaired range
+                          is adequate: some k-model satisfiable ⇒ one with `≤ |E| + #constraints` layers
+                          is (integer weights: edge mode, nothing ignored; float weights: ignored edges
+                          and additional starts/ends allowed; both: every edge with the flow attribute,
+                          no empty layers, constraint edges in the graph, some flow value `≥ 1`): at most
+                          `|E|` walks for the flow plus one covering walk of weight `0` per constraint;
+     `search_range_adequate` — without subset constraints `≤ |E|` layers suffice for plain integer
+                          instances (`walks_at_most_edges`, `few_walks_suffice`: any family of walks with
+                          positive integer weights can be replaced by at most `|E|` walks with the same
+                          weighted traversal counts);
+     `search_range_adequate_float` — … and for float weights when every edge has the flow attribute and
+                          some non-ignored flow value is `≥ 1` (`caratheodory`);
+     `search_range_adequate_of_bound`, `mfdc_search_complete_plain`, `mfdc_search_complete_float`,
+     `mfdc_search_complete_constraints`, `mfdc_search_complete_constraints_float` — what the range
+                          guarantees: if a k-model with `j < hi` layers is satisfiable, the lower bound
+                          is valid and the solver is conclusive and in time on `lo … j`, the search
+                          returns the least satisfiable `k`; on the classes above this holds whenever a
+                          decomposition exists at all.
 
 Not covered by T6 (open, not refuted): integer weights together with ignored edges, additional
 starts/ends (node mode) or edges without the attribute; float weights when all non-ignored flow values
 are below `1` (there the product blocks get too few bits for the completeness theorem T2, and the caps of
-T4 make most such instances unsatisfiable anyway). Not modelled:
-`stDiGraph.get_width` / the min-gen-set bound as valid lower bounds (hypothesis `hlo`; brute-force oracle).
+T4 make most such instances unsatisfiable anyway); `allow_empty_walks` together with subset constraints.
+Not modelled: `stDiGraph.get_width` / the min-gen-set bound as valid lower bounds (hypothesis `hlo`;
+brute-force oracle).
 -/
 namespace FP.Props.C04
 open FP FP.Spec FP.Search
@@ -271,9 +280,13 @@ theorem mfdc_minimum_int (inp : WalkInput) (σ : Nat → Status) (late : Nat →
     k ≤ j :=
   FP.mfdc_minimum_int_proof inp σ late lo hi k hb hcaps hσ hlo h j hj0 hinj walk w hwalk hw hflow hdec hcov
 
-/-! ## T6: the search range `k ≤ |E|` -/
+/-! ## T6: the search range
 
-/-- the search range of `MinFlowDecompCycles.solve` (`k ≤ |E|`) contains the minimum on *every* input:
+Until fix 26b11a1 the loop of `MinFlowDecompCycles.solve` ran over `range(lower bound, |E| + 1)`; the three
+theorems on `RangeWitness.inp` below are the reason for the fix and stay as regression theorems. Since the
+fix it runs over `range(lower bound, |E| + len(subset_constraints) + 1)`. -/
+
+/-- the OLD search range of `MinFlowDecompCycles.solve` (`k ≤ |E|`, before fix 26b11a1) contains the minimum on *every* input:
 whenever some k-model is satisfiable, one with at most `|E(G)|` layers is. **False** (next theorem). -/
 def search_range_adequate_FullStatement : Prop :=
   ∀ (inp : WalkInput) (k : Nat), BaseWF inp.base → KfdcFeasible inp k →
@@ -282,33 +295,32 @@ def search_range_adequate_FullStatement : Prop :=
 /-- **T6, the witness.** Two sources `s0, s1`, a hub `m`, three sinks `t0, t1, t2`, the five edges
 `s_a → m` (flow 3) and `m → t_b` (flow 2), `weight_type = int`, and the six subset constraints
 `{(s_a, m), (m, t_b)}`: the k-model is satisfiable for `k = 6` (the six paths with weight 1) and for no
-`k ≤ 5 = |E|` — a walk is one of the six paths and covers one constraint. The loop of `solve()` ends at
-`k = |E| = 5`, so the real `MinFlowDecompCycles(..., subset_constraints=…).solve()` answers `False`
-although six weighted walks decompose the flow and cover every constraint. -/
+`k ≤ 5 = |E|` — a walk is one of the six paths and covers one constraint. The old loop of `solve()` ended
+at `k = |E| = 5`, so `MinFlowDecompCycles(..., subset_constraints=…).solve()` answered `False` although six
+weighted walks decompose the flow and cover every constraint (the reason for fix 26b11a1). -/
 theorem search_range_counterexample :
     BaseWF RangeWitness.inp.base ∧ RangeWitness.inp.base.edges.length = 5 ∧
     KfdcFeasible RangeWitness.inp 6 ∧
     (∀ j, j ≤ RangeWitness.inp.base.edges.length → ¬ KfdcFeasible RangeWitness.inp j) :=
   ⟨RangeWitness.base_wf, rfl, RangeWitness.feasible6, fun j hj => RangeWitness.infeasible_le5 j hj⟩
 
-/-- **T6, negative part.** With subset constraints the range `k ≤ |E|` can miss the minimum. -/
+/-- **T6, negative part (old range).** With subset constraints the range `k ≤ |E|` can miss the minimum:
+the reason for fix 26b11a1. -/
 theorem search_range_not_adequate : ¬ search_range_adequate_FullStatement := by
   intro h
   obtain ⟨j, hj, hf⟩ := h RangeWitness.inp 6 RangeWitness.base_wf RangeWitness.feasible6
   exact RangeWitness.infeasible_le5 j hj hf
 
-/-- … and the search machine run over that range ends unsolved on the witness, whatever the (faithful)
-solver answers: the `False` of the real `solve()`. -/
-theorem search_range_counterexample_unsolved (σ : Nat → Status) (late : Nat → Bool) (lo : Nat)
-    (hσ : FaithfulC RangeWitness.inp σ) :
-    (stopSearchTimed σ late lo (RangeWitness.inp.base.edges.length + 1)).solved = none := by
-  cases h : (stopSearchTimed σ late lo (RangeWitness.inp.base.edges.length + 1)).solved with
-  | none => rfl
-  | some k =>
-    obtain ⟨h1, _, _, h4, _⟩ := FP.Props.C13.timed_sound σ late lo _ k h
-    exact absurd ((hσ k).1 h1) (RangeWitness.infeasible_le5 k (by
-      have : RangeWitness.inp.base.edges.length = 5 := rfl
-      omega))
+/-- **T6, regression for fix 26b11a1.** Over the repaired range `lo … |E| + #constraints` (here
+`hi = 5 + 6 + 1`) the search machine returns `6` on the witness for every faithful status script that is
+conclusive and in time on `lo … 6` — the real `solve()` now answers `True` with six walks. -/
+theorem search_range_witness_solved (σ : Nat → Status) (late : Nat → Bool) (lo : Nat)
+    (hσ : FaithfulC RangeWitness.inp σ) (hlo : lo ≤ 6)
+    (hconcl : ∀ i, lo ≤ i → i ≤ 6 → σ i ≠ .other ∧ late i = false) :
+    (stopSearchTimed σ late lo
+      (RangeWitness.inp.base.edges.length + RangeWitness.inp.cfg.constraints.length + 1)).solved = some 6 :=
+  FP.mfdc_search_finds_proof RangeWitness.inp σ late lo _ 6 hσ hlo (by decide) RangeWitness.feasible6
+    (fun j hj => RangeWitness.infeasible_le5 j (by omega)) hconcl
 
 /-- **T6, the combinatorial core.** On the augmented graph of an input without additional starts/ends
 (`Thin`), every family `F` of source-to-sink walks with positive integer weights, each through an edge of
@@ -373,6 +385,36 @@ theorem search_range_adequate_float (inp : WalkInput) (k : Nat) (hb : BaseWF inp
     ∃ j, j ≤ inp.base.edges.length ∧ KfdcFeasible inp j :=
   FP.kfdcr_range_rat inp hb hfloat hcons hattr hM hinj k hf
 
+/-- **T6, the repaired range is adequate (integer weights, subset constraints allowed).**
+`weight_type = int`, edge mode, nothing ignored, every edge with the flow attribute, no empty layers
+(`allow_empty_walks` off, the default), constraint edges are edges of the graph, some flow value `≥ 1`:
+whenever some k-model is satisfiable, one with at most `|E(G)| + #constraints` layers is — the flow is
+re-decomposed into at most `|E|` walks (`walks_at_most_edges`), and for every constraint one walk of the
+given solution that covers it is kept with weight `0` (it is within the caps because it comes from a
+satisfying assignment). -/
+theorem search_range_adequate_constraints (inp : WalkInput) (k : Nat) (hb : BaseWF inp.base)
+    (hst : inp.starts = []) (hen : inp.ends = []) (hign : inp.ignore = [])
+    (hint : inp.weightInt = true) (hae : inp.cfg.allowEmpty = false)
+    (hedges : ∀ con ∈ inp.cfg.constraints, ∀ e ∈ con, e ∈ inp.st.g.edges)
+    (hattr : ∀ e ∈ inp.base.edges, ∃ q, inp.fOpt e = some q)
+    (hM : ∃ e ∈ inp.activeEdges false, 1 ≤ inp.f e)
+    (hinj : ∀ j, j ≤ inp.base.edges.length + inp.cfg.constraints.length → NameInj (inp.withK j))
+    (hf : KfdcFeasible inp k) :
+    ∃ j, j ≤ inp.base.edges.length + inp.cfg.constraints.length ∧ KfdcFeasible inp j :=
+  FP.kfdcr_range_int_cons inp hb hst hen hign hint hae hedges hattr hM hinj k hf
+
+/-- **T6, the repaired range is adequate (float weights, subset constraints allowed)**: the selected
+walks of `search_range_adequate_float` plus one covering walk of weight `0` per constraint. -/
+theorem search_range_adequate_constraints_float (inp : WalkInput) (k : Nat) (hb : BaseWF inp.base)
+    (hfloat : inp.weightInt = false) (hae : inp.cfg.allowEmpty = false)
+    (hedges : ∀ con ∈ inp.cfg.constraints, ∀ e ∈ con, e ∈ inp.st.g.edges)
+    (hattr : ∀ e ∈ inp.base.edges, ∃ q, inp.fOpt e = some q)
+    (hM : ∃ e ∈ inp.activeEdges false, 1 ≤ inp.f e)
+    (hinj : ∀ j, j ≤ inp.base.edges.length + inp.cfg.constraints.length → NameInj (inp.withK j))
+    (hf : KfdcFeasible inp k) :
+    ∃ j, j ≤ inp.base.edges.length + inp.cfg.constraints.length ∧ KfdcFeasible inp j :=
+  FP.kfdcr_range_rat_cons inp hb hfloat hae hedges hattr hM hinj k hf
+
 /-- **T6, what the range does guarantee.** If *some* k-model with `j < hi` layers is satisfiable (for the
 real loop `hi = |E| + 1`, i.e. `j ≤ |E|`), the lower bound is valid and the solver is conclusive and in
 time up to `j`, then the search returns the least satisfiable `k` (and `k ≤ j`). -/
@@ -423,6 +465,48 @@ theorem mfdc_search_complete_float (inp : WalkInput) (σ : Nat → Status) (late
       k' ≤ inp.base.edges.length ∧ KfdcFeasible inp k' ∧ ∀ i, i < k' → ¬ KfdcFeasible inp i := by
   obtain ⟨j, hj, hfj⟩ := search_range_adequate_float inp k hb hfloat hcons hattr hM hinj hf
   obtain ⟨k', h1, h2, h3, h4⟩ := search_range_adequate_of_bound inp σ late lo (inp.base.edges.length + 1) j
+    hσ hlo hfj (by omega) (fun i hi1 hi2 => hconcl i hi1 (by omega))
+  exact ⟨k', h1, by omega, h3, h4⟩
+
+/-- **C04 with subset constraints (integer weights): over the repaired range the search finds the
+minimum whenever a decomposition covering the constraints exists.** -/
+theorem mfdc_search_complete_constraints (inp : WalkInput) (σ : Nat → Status) (late : Nat → Bool) (lo k : Nat)
+    (hb : BaseWF inp.base) (hst : inp.starts = []) (hen : inp.ends = []) (hign : inp.ignore = [])
+    (hint : inp.weightInt = true) (hae : inp.cfg.allowEmpty = false)
+    (hedges : ∀ con ∈ inp.cfg.constraints, ∀ e ∈ con, e ∈ inp.st.g.edges)
+    (hattr : ∀ e ∈ inp.base.edges, ∃ q, inp.fOpt e = some q)
+    (hM : ∃ e ∈ inp.activeEdges false, 1 ≤ inp.f e)
+    (hinj : ∀ j, j ≤ inp.base.edges.length + inp.cfg.constraints.length → NameInj (inp.withK j))
+    (hσ : FaithfulC inp σ) (hlo : ∀ i, i < lo → ¬ KfdcFeasible inp i)
+    (hf : KfdcFeasible inp k)
+    (hconcl : ∀ i, lo ≤ i → i ≤ inp.base.edges.length + inp.cfg.constraints.length →
+      σ i ≠ .other ∧ late i = false) :
+    ∃ k', (stopSearchTimed σ late lo (inp.base.edges.length + inp.cfg.constraints.length + 1)).solved = some k' ∧
+      k' ≤ inp.base.edges.length + inp.cfg.constraints.length ∧ KfdcFeasible inp k' ∧
+      ∀ i, i < k' → ¬ KfdcFeasible inp i := by
+  obtain ⟨j, hj, hfj⟩ := search_range_adequate_constraints inp k hb hst hen hign hint hae hedges hattr hM hinj hf
+  obtain ⟨k', h1, h2, h3, h4⟩ := search_range_adequate_of_bound inp σ late lo
+    (inp.base.edges.length + inp.cfg.constraints.length + 1) j
+    hσ hlo hfj (by omega) (fun i hi1 hi2 => hconcl i hi1 (by omega))
+  exact ⟨k', h1, by omega, h3, h4⟩
+
+/-- the same for float weights -/
+theorem mfdc_search_complete_constraints_float (inp : WalkInput) (σ : Nat → Status) (late : Nat → Bool)
+    (lo k : Nat) (hb : BaseWF inp.base) (hfloat : inp.weightInt = false) (hae : inp.cfg.allowEmpty = false)
+    (hedges : ∀ con ∈ inp.cfg.constraints, ∀ e ∈ con, e ∈ inp.st.g.edges)
+    (hattr : ∀ e ∈ inp.base.edges, ∃ q, inp.fOpt e = some q)
+    (hM : ∃ e ∈ inp.activeEdges false, 1 ≤ inp.f e)
+    (hinj : ∀ j, j ≤ inp.base.edges.length + inp.cfg.constraints.length → NameInj (inp.withK j))
+    (hσ : FaithfulC inp σ) (hlo : ∀ i, i < lo → ¬ KfdcFeasible inp i)
+    (hf : KfdcFeasible inp k)
+    (hconcl : ∀ i, lo ≤ i → i ≤ inp.base.edges.length + inp.cfg.constraints.length →
+      σ i ≠ .other ∧ late i = false) :
+    ∃ k', (stopSearchTimed σ late lo (inp.base.edges.length + inp.cfg.constraints.length + 1)).solved = some k' ∧
+      k' ≤ inp.base.edges.length + inp.cfg.constraints.length ∧ KfdcFeasible inp k' ∧
+      ∀ i, i < k' → ¬ KfdcFeasible inp i := by
+  obtain ⟨j, hj, hfj⟩ := search_range_adequate_constraints_float inp k hb hfloat hae hedges hattr hM hinj hf
+  obtain ⟨k', h1, h2, h3, h4⟩ := search_range_adequate_of_bound inp σ late lo
+    (inp.base.edges.length + inp.cfg.constraints.length + 1) j
     hσ hlo hfj (by omega) (fun i hi1 hi2 => hconcl i hi1 (by omega))
   exact ⟨k', h1, by omega, h3, h4⟩
 
@@ -528,6 +612,23 @@ example : ∃ j, j ≤ (ScaleWitness.inp 1 1).base.edges.length ∧ KfdcFeasible
       exact Option.isSome_iff_exists.1 h)
     ⟨("a", "a"), ScaleWitness.loop_active 1 1, by decide +kernel⟩ loop_names_le
     ⟨_, ScaleWitness.loop_unscaled_feasible⟩
+
+/-- `search_range_adequate_constraints` applies to the witness of fix 26b11a1 (six constraints, `k = 6`) -/
+theorem witness_names_le : ∀ j, j ≤ RangeWitness.inp.base.edges.length + RangeWitness.inp.cfg.constraints.length →
+    NameInj (RangeWitness.inp.withK j) := by
+  unfold NameInj
+  decide +kernel
+
+example : ∃ j, j ≤ 5 + 6 ∧ KfdcFeasible RangeWitness.inp j :=
+  search_range_adequate_constraints RangeWitness.inp 6 RangeWitness.base_wf rfl rfl rfl rfl rfl
+    (by decide +kernel)
+    (by
+      intro e he
+      have h : (RangeWitness.inp.fOpt e).isSome = true := by
+        revert e
+        decide +kernel
+      exact Option.isSome_iff_exists.1 h)
+    ⟨("s0", "m"), by decide +kernel, by decide +kernel⟩ witness_names_le RangeWitness.feasible6
 
 /-- T5 on the two instances of T4: the unscaled one is found at `k = 1`, on the scaled one every faithful
 script without inconclusive answers makes the search end unsolved (as the real code does) -/
